@@ -193,13 +193,29 @@ func buildHarness(h *Harness, dir string, race bool) (string, *InstrReport, erro
 		args = []string{"test", "-c", "-race", "-o", bin, "-modfile=" + filepath.Join(dir, "go.mod"), "-overlay=" + ovPath, "-vet=off"}
 	}
 	args = append(args, "./"+h.Pkg)
-	cmd := exec.Command("go", args...)
-	cmd.Dir = repoRoot
-	cmd.Env = goEnv()
-	var out bytes.Buffer
-	cmd.Stdout, cmd.Stderr = &out, &out
-	if err := cmd.Run(); err != nil {
-		return "", nil, fmt.Errorf("go %s: %v\n%s", strings.Join(args, " "), err, out.String())
+	// The toolchain itself can fail for lack of resources on a busy machine (EAGAIN from clone, no memory);
+	// that says nothing about the tree under test, so such a failure is retried after a pause.
+	var lastErr error
+	for attempt := 0; attempt < 5; attempt++ {
+		cmd := exec.Command("go", args...)
+		cmd.Dir = repoRoot
+		cmd.Env = goEnv()
+		var out bytes.Buffer
+		cmd.Stdout, cmd.Stderr = &out, &out
+		err := cmd.Run()
+		if err == nil {
+			lastErr = nil
+			break
+		}
+		lastErr = fmt.Errorf("go %s: %v\n%s", strings.Join(args, " "), err, out.String())
+		o := out.String()
+		if !(strings.Contains(o, "failed to create new OS thread") || strings.Contains(o, "resource temporarily unavailable") || strings.Contains(o, "cannot allocate memory") || strings.Contains(o, "fork/exec")) {
+			break
+		}
+		time.Sleep(time.Duration(15*(attempt+1)) * time.Second)
+	}
+	if lastErr != nil {
+		return "", nil, lastErr
 	}
 	return bin, rep, nil
 }
